@@ -151,17 +151,22 @@ func (k Keeper) Logger() log.Logger {
 	return k.logger
 }
 
-// updateBondedPoolPower updates the bonded pool to the correct power for the network.
+// UpdateBondedPoolPower makes the bonded pool hold exactly the tokens of the bonded validators: the shortfall is
+// minted into the pool when PoA assigned more tokens (power increase, new validator) and the excess is burned
+// from it when PoA assigned fewer (power decrease). Transfers between the bonded and the not-bonded pool when a
+// validator starts or stops unbonding, and slashing burns, are x/staking's own.
 func (k Keeper) UpdateBondedPoolPower(ctx context.Context) error {
 	newTotal := sdkmath.ZeroInt()
 
-	del, err := k.stakingKeeper.GetAllDelegations(ctx)
+	vals, err := k.stakingKeeper.GetAllValidators(ctx)
 	if err != nil {
 		return err
 	}
 
-	for _, d := range del {
-		newTotal = newTotal.Add(d.Shares.RoundInt())
+	for _, val := range vals {
+		if val.IsBonded() {
+			newTotal = newTotal.Add(val.Tokens)
+		}
 	}
 
 	bondDenom, err := k.stakingKeeper.BondDenom(ctx)
@@ -183,16 +188,13 @@ func (k Keeper) UpdateBondedPoolPower(ctx context.Context) error {
 			return err
 		}
 
-		if err := k.bankKeeper.SendCoinsFromModuleToModule(ctx, minttypes.ModuleName, stakingtypes.BondedPoolName, coins); err != nil {
-			return err
-		}
+		return k.bankKeeper.SendCoinsFromModuleToModule(ctx, minttypes.ModuleName, stakingtypes.BondedPoolName, coins)
 	}
 
-	// no need to check if it goes down. When it does, it's automatic from the staking module as tokens are moved from
-	// bonded -> ToNotBonded pool. As PoA, we do not want any tokens in the ToNotBonded pool, so when a validator is removed
-	// they are slashed 100% (since it is PoA this is fine) which decreases the BondedPool balance, and leave NotBonded at 0.
+	// the admin lowered a validator's power: the tokens it no longer has leave the supply
+	coins := sdk.NewCoins(sdk.NewCoin(bondDenom, prevBal.Sub(newTotal)))
 
-	return nil
+	return k.bankKeeper.BurnCoins(ctx, stakingtypes.BondedPoolName, coins)
 }
 
 // ResetCachedTotalPower resets the block power index to the current total power.
